@@ -1,6 +1,7 @@
 CONSTANTS
   MaxLen = 2
   Export = TRUE
+  OtherUntil = 1
 SPECIFICATION Spec
 VIEW View
 INVARIANT TypeOK
@@ -12,4 +13,5 @@ INVARIANT RunOnlyWhenInsecure
 INVARIANT FlagIsConfig
 INVARIANT ShadowNotBase
 PROPERTY FlagImmutable
+PROPERTY OthersChangeNothing
 CHECK_DEADLOCK FALSE
